@@ -104,8 +104,8 @@ def trace_leg(ck, binp, tier, stats):
     if not os.path.exists(os.path.join(SPEC, "ExtActionTrace.tla")):
         ck.notes.append("TV leg not built (ExtActionTrace.tla missing)")
         return
-    runs = 2 if tier == "quick" else 40
-    events = 300 if tier == "quick" else 1500
+    runs = 2 if tier == "quick" else 24
+    events = 300 if tier == "quick" else 1000
     nreq = 8 if tier == "quick" else 12
     tpath = os.path.join(WORK, "c17.trace.ndjson")
     out = harness(binp, ["c17", "trace", str(seed()), str(runs), str(events), str(nreq), tpath], timeout=3600, ok_codes=(0, 1))
